@@ -6,7 +6,7 @@
    to /repo.  Purely structural: holds for every reader.  No axioms. *)
 From V.lib Require Import Base.
 From V.c13 Require Import C13Model.
-From V.c15 Require Import C15Model C15HevcModel.
+From V.c15 Require Import C15Model C15Avc2Model C15HevcModel.
 From V.c16 Require Import C16Model C16ReaderProofs C16SeiProofs C16ParseModel C16HevcParseModel C16ParseProofs C16ParseErProofs
   C16ReaderMoreProofs C16HevcErProofs.
 
@@ -109,9 +109,9 @@ Section Sim.
   Qed.
 
   Lemma refines_slice fuel spsmap ppsmap :
-    refines (parse_slice_header_d R fuel spsmap ppsmap) (parse_slice_header R spsmap ppsmap).
+    refines (parse_slice_header_d R fuel spsmap ppsmap) (parse_slice_header2 R spsmap ppsmap).
   Proof.
-    unfold parse_slice_header_d, parse_slice_header.
+    unfold parse_slice_header_d, parse_slice_header2.
     repeat first [ apply refines_rplm | apply refines_mmco | rstep ].
   Qed.
   (* ================================================================== HEVC *)
@@ -225,15 +225,15 @@ Proof.
 Qed.
 
 Lemma c16_parse_slice_agrees spsmap ppsmap nalu :
-  parse_slice_er spsmap ppsmap nalu <> OutOfFuel ->
-  c16_parse_slice spsmap ppsmap nalu = parse_slice_er spsmap ppsmap nalu.
+  parse_slice2_er spsmap ppsmap nalu <> OutOfFuel ->
+  c16_parse_slice spsmap ppsmap nalu = parse_slice2_er spsmap ppsmap nalu.
 Proof.
-  intros Hn. unfold c16_parse_slice, parse_slice_er in *.
+  intros Hn. unfold c16_parse_slice, parse_slice2_er in *.
   assert (Hr : okerr (run (parse_slice_header_d ER (parse_fuel nalu) spsmap ppsmap) (rinit nalu))).
   { destruct (c16_parse_slice_total spsmap ppsmap nalu) as [E|(a & E)]; unfold c16_parse_slice in E; rewrite E;
       [left; reflexivity|right; eauto]. }
   apply run_okerr in Hr.
-  assert (Hm : parse_slice_header ER spsmap ppsmap (rinit nalu) <> OutOfFuel).
+  assert (Hm : parse_slice_header2 ER spsmap ppsmap (rinit nalu) <> OutOfFuel).
   { intros X. apply Hn. unfold run. rewrite X. reflexivity. }
   unfold run. rewrite (refines_slice ER (parse_fuel nalu) spsmap ppsmap (rinit nalu) _ eq_refl Hr Hm). reflexivity.
 Qed.
